@@ -38,7 +38,36 @@ MOVEGEN = {'name': 'movegen', 'build': b_targets, 'rlimit': 60,
            'rlimits': {'generate_moves_for_piece': 400, 'generate_castling_moves': 300},
            'canary_quick': ['is_check', 'is_check_cords', 'get_moves', 'promote_pawn', 'pawn_moves_en_passant', 'knight_moves', 'generate_moves']}
 
+from vlib import kani as K
+from vlib import hunter as H
+
+KANI_C09 = K.make_engine({'time_control.rs': 'time_control_harness.rs'},
+                         [('time_control.rs', 'calculate_time_slice', 'GameTime', 'time_control_contract.txt')],
+                         [{'name': 'c09_contract_full_domain', 'timeout': 900, 'what': 'function contract of GameTime::calculate_time_slice over the full i128 x Option<u32> domain, both colours: slice <= mover clock when clock > 100; slice == 0 when clock <= 100 and increment <= 0'},
+                          {'name': 'c09_cover_regimes', 'timeout': 900, 'what': 'reachability of the three regimes behind the precondition (vacuity guard)'},
+                          {'name': 'c09_bounded_eighty_percent', 'timeout': 1800, 'tier': 'thorough', 'bounded': 'mover clock in i16, movestogo absent or 1..=64, all other fields arbitrary i128',
+                           'what': '|slice*mtg*10 - 8*(clock-100)| <= 10*mtg, i.e. within 1 ms of 0.8*(clock-100)/mtg; independent of the other side'}])
+KANI_C15 = K.make_engine({'board.rs': 'board_harness.rs'}, [],
+                         [{'name': 'c15_point_from_str_total_and_faithful', 'timeout': 1800, 'what': 'Point::from_str on every valid-UTF-8 byte string of length <= 4: no panic, Ok exactly for [a-h][1-8], decoded square correct'}])
+
 PROPS = {
+    'C09': {
+        'engines': [{'run': KANI_C09}],
+        'whitelist': [], 'trusted_base': ['Kani 0.68 + CBMC 6.11 (bit-precise incl. IEEE-754 f64) + CaDiCaL', 'rustc; the scratch crate is /repo/src plus appended cfg(kani) modules and inserted contract attributes'],
+        'dropped': ['everything except time_control.rs::GameTime::calculate_time_slice'],
+        'explanation': 'Kani function contract on the real calculate_time_slice, proved loop-free over the full input domain',
+        'assumptions': ['movestogo, when given, is >= 1 (UCI); Some(0) divides by zero and is excluded by the precondition'],
+        'not_decided': ['"at most 80% of (clock - margin) / moves to go" on the full domain (128-bit product in the postcondition does not terminate; bounded stand-in in the thorough tier)',
+                        'parse_go_command token routing (string code)', 'actual go->bestmove delay equals the plan (wall clock, threads)'],
+    },
+    'C15': {
+        'engines': [{'run': KANI_C15}, {'run': H.make_bounded_engine('from_fen: never panics on mutated FEN text; every well-formed FEN of a legal position (oracle-generated, counters up to 65535) loads to exactly that position with its from-scratch key', 'seeded random: curated + random legal positions x 8 counter pairs, and 1-3 random edits of each text', 15, 240)}],
+        'whitelist': [], 'trusted_base': ['Kani 0.68 + CBMC 6.11 + CaDiCaL', 'rustc; scratch crate = /repo/src + appended cfg(kani) module'],
+        'dropped': ['everything except board.rs::<Point as FromStr>::from_str'],
+        'explanation': 'loop-bounded-by-input-length harness over all <=4-byte UTF-8 strings for the en-passant-square parser',
+        'assumptions': [],
+        'not_decided': ['from_fen field splitting, row/column bounds, counters, placement faithfulness, from-scratch key: String/split/collect/parse code that Verus cannot parse and Kani does not finish (DESIGN App. B)', 'CLI behaviour'],
+    },
     'C01': {
         'verus': [MOVEGEN],
         'whitelist': WL_MOVEGEN, 'trusted_base': TB_COMMON, 'dropped': DROPPED_COMMON,
